@@ -280,7 +280,7 @@ def msg_id(text):
 
 def gen_deep(rng, thorough):
     out = []
-    depths = [10000, 100000] if not thorough else [3000, 10000, 30000, 100000]
+    depths = [30000] if not thorough else [3000, 10000, 30000, 100000]
 
     def add(fam, data, textual=True):
         out.append({'gen': 'deep', 'family': 'deep:' + fam, 'data': data, 'opts': [], 'textual': textual})
@@ -343,20 +343,31 @@ def gen_deep(rng, thorough):
         add('many-lines', b'\n' * n + b'int y = ;\n')
         add('crlf-lines', b'\r\n' * n + b'int y = ;\n', False)
     # moderate depth: exponential behaviour shows up long before the stack is exhausted
-    for n in (24, 32, 48):
+    for n in ((20, 28) if not thorough else (20, 28, 48)):
+        slow_ok = thorough or n <= 20
         add('exp-paren-declarator', b'int ' + b'(' * n + b'p' + b')' * n + b';\n')
         add('exp-fnptr-declarator', b'int ' + b'(*' * n + b'f' + b')(void)' * n + b';\n')
-        add('exp-array-of-paren', b'int ' + b'(' * n + b'a[2]' + b')' * n + b' = {1, 2};\n')
+        if slow_ok:
+            add('exp-array-of-paren', b'int ' + b'(' * n + b'a[2]' + b')' * n + b' = {1, 2};\n')
         add('exp-param-declarator', b'int f(int ' + b'(' * n + b'p' + b')' * n + b');\n')
-        add('exp-cast-paren', b'int x = ' + b'(int)(' * n + b'1' + b')' * n + b';\n')
-        add('exp-typeof', b'int x; ' + b'typeof(' * n + b'x' + b')' * n + b' y;\n')
-        add('exp-generic', b'int x = ' + b'_Generic((' * n + b'1' + b'), default: 1)' * n + b';\n')
-        add('exp-sizeof-paren', b'int x = ' + b'sizeof(' * n + b'int' + b')' * n + b';\n')
-        add('exp-local-declarator', b'int main() { int ' + b'(' * n + b'p' + b')' * n + b'; }\n')
-        add('exp-struct-member-declarator', b'struct S { int ' + b'(' * n + b'p' + b')' * n + b'; };\n')
-        add('exp-typedef-declarator', b'typedef int ' + b'(' * n + b'T' + b')' * n + b';\n')
-        add('exp-compound-literal', b'int x = ' + b'(int){' * n + b'1' + b'}' * n + b';\n')
-        add('exp-stmt-expr', b'int main() { return ' + b'({ ' * n + b'1;' + b' });' * n + b' }\n')
+        if slow_ok:
+            add('exp-cast-paren', b'int x = ' + b'(int)(' * n + b'1' + b')' * n + b';\n')
+        if slow_ok:
+            add('exp-typeof', b'int x; ' + b'typeof(' * n + b'x' + b')' * n + b' y;\n')
+        if slow_ok:
+            add('exp-generic', b'int x = ' + b'_Generic((' * n + b'1' + b'), default: 1)' * n + b';\n')
+        if slow_ok:
+            add('exp-sizeof-paren', b'int x = ' + b'sizeof(' * n + b'int' + b')' * n + b';\n')
+        if slow_ok:
+            add('exp-local-declarator', b'int main() { int ' + b'(' * n + b'p' + b')' * n + b'; }\n')
+        if slow_ok:
+            add('exp-struct-member-declarator', b'struct S { int ' + b'(' * n + b'p' + b')' * n + b'; };\n')
+        if slow_ok:
+            add('exp-typedef-declarator', b'typedef int ' + b'(' * n + b'T' + b')' * n + b';\n')
+        if slow_ok:
+            add('exp-compound-literal', b'int x = ' + b'(int){' * n + b'1' + b'}' * n + b';\n')
+        if slow_ok:
+            add('exp-stmt-expr', b'int main() { return ' + b'({ ' * n + b'1;' + b' });' * n + b' }\n')
     return out
 
 
